@@ -9,6 +9,7 @@ Hypothesis: a replay file is ``{property, sub, case}`` and is re-checked by
 calling ``check`` directly.
 """
 import contextlib
+import copy
 import hashlib
 import io
 import json
@@ -288,6 +289,10 @@ class Recorder:
         (used while shrinking)."""
         ctx = Ctx()
         ctx.tier = self.tier
+        # the oracle works on a private copy: a check that edits its case (many do, to apply an edit to the
+        # model) must neither change what is recorded for replay nor what Hypothesis re-runs
+        original = case
+        case = copy.deepcopy(case)
         try:
             try:
                 with quiet(), _cpu_watchdog(self.sub.name):
@@ -319,9 +324,9 @@ class Recorder:
                 return
             lst = self.violations.setdefault(v.bucket, [])
             if len(lst) < self.MAX_PER_BUCKET:
-                lst.append((normalise(case), v.detail))
+                lst.append((normalise(original), v.detail))
             # development only (mutation runs, VF_FIRST=1): the shard ends at its first unlisted violation
-            if self.stop_on is not None and self.stop_on(v.bucket, case):
+            if self.stop_on is not None and self.stop_on(v.bucket, original):
                 self.stopped = True
                 raise StopRun()
             return
@@ -329,11 +334,11 @@ class Recorder:
         for k, n in ctx.classes.items():
             self.classes[k] = self.classes.get(k, 0) + n
         if ctx._nontrivial:
-            self.digests.add(case_digest(self.sub.name, case))
+            self.digests.add(case_digest(self.sub.name, original))
         if self.evaluations in (4, 23, 97) or (self.evaluations == 1 and not self.samples):
             if len(self.samples) >= 3:
                 self.samples.pop(0)
-            self.samples.append(short(case))
+            self.samples.append(short(original))
 
     def result(self):
         return {
